@@ -64,9 +64,22 @@ def cmd_tokens(c: dict) -> List[str]:
     raise ValueError(k)
 
 
+# the agent actions that build the requests of the model's operations (discriminators of primaite.game.agent.actions)
+ACTION_OF = {"rlogin": "node-session-remote-login", "rlogoff": "node-session-remote-logoff", "chpw": "node-account-change-password",
+             "adduser": "node-account-add-user", "disable": "node-account-disable-user", "lcmd": "node-send-local-command",
+             "rcmd": "node-send-remote-command"}
+ACTION_SAMPLES = [
+    {"op": "rlogin", "x": 0, "y": 1, "u": "user-a", "p": "pass-b"}, {"op": "rlogoff", "x": 1, "y": 0},
+    {"op": "chpw", "y": 1, "u": "user-a", "old": "old-b", "new": "new-c"}, {"op": "adduser", "y": 0, "u": "user-a", "p": "pass-b", "admin": True},
+    {"op": "adduser", "y": 1, "u": "user-a", "p": "pass-b", "admin": False}, {"op": "disable", "y": 0, "u": "user-a"},
+    {"op": "lcmd", "y": 0, "u": "user-a", "p": "pass-b", "cmd": {"op": "file", "k": 3}},
+    {"op": "rcmd", "x": 0, "y": 1, "cmd": {"op": "lcmd", "u": "user-a", "p": "pass-b", "cmd": {"op": "file", "k": 4}}}]
 REMOTE = ("rlogin", "rcmd", "rlogoff")
 MEDIUM_OPS = ("block", "rpower", "arpblock", "arpclear")
-NONREQ = ("tick", "llogin", "llogout", "enable", "cfguser") + MEDIUM_OPS   # operations that are not a request to a host
+# operations on connection OBJECTS somebody kept (Python API: what `Terminal.login` returns): `take x i` keeps a reference to the i-th
+# object of node x's `Terminal._connections`, `hexec k cmd` = held[k].execute(cmd), `hdisc k` = held[k].disconnect()
+HANDLE_OPS = ("take", "hexec", "hdisc")
+NONREQ = ("tick", "llogin", "llogout", "enable", "cfguser", "take", "hdisc") + MEDIUM_OPS   # operations that are not a request to a host
 
 
 def exec_node(op: dict) -> int:
@@ -140,6 +153,12 @@ def op_line(op: dict, medium: Optional[Medium] = None) -> str:
         return f"{k} {op['r']} {int(op['on'])}"
     if k == "arpclear":
         return f"arpclear {op['j']}"
+    if k == "take":
+        return f"take {op['x']} {op['i']}"
+    if k == "hdisc":
+        return f"hdisc {op['k']}"
+    if k == "hexec":
+        return " ".join(["hexec", str(op["k"])] + cmd_tokens(op.get("cmd", FILE)))
     return " ".join(["req", str(exec_node(op))] + cmd_tokens(op))
 
 
@@ -158,7 +177,7 @@ def model_lines(case: dict) -> List[str]:
 def _number(c: dict, i: int) -> dict:
     if c["op"] == "file":
         return dict(c, k=i)
-    if c["op"] in ("rcmd", "lcmd"):
+    if c["op"] in ("rcmd", "lcmd", "hexec"):
         return dict(c, cmd=_number(c.get("cmd", FILE), i))
     return c
 
@@ -263,6 +282,7 @@ class Impl:
                 c.software_manager.software[s].restart_duration = cfg["rd"]
         self.t = 0
         self.ip_index = {self.ip(i): i for i in range(n)}
+        self.held = []     # (node index, connection object) in the order they were taken
 
     def ip(self, i: int) -> str:
         return ip_of(i, self.topo)
@@ -300,7 +320,12 @@ class Impl:
             loc = usm.local_session
             folder = c.file_system.get_folder("root")
             files = [int(f.name) for f in folder.files.values()] if folder else []
+            # what an observer sees (`describe_state`) must be the sessions the manager really holds
+            ds = usm.describe_state()
+            ds_ok = (ds.get("current_local_user") == (None if loc is None else loc.user.username)
+                     and list(ds.get("active_remote_sessions", [])) == list(usm.remote_sessions.keys()))
             nodes.append({
+                "ds_ok": ds_ok,
                 "power": c.operating_state.name,
                 "nic": bool(c.network_interface[1].enabled),
                 "T": term.operating_state.name, "UM": um.operating_state.name, "USM": usm.operating_state.name,
@@ -312,7 +337,8 @@ class Impl:
                 "files": files,
                 "max": usm.max_remote_sessions,
             })
-        return {"nodes": nodes, "t": self.t, "blk": self.blocked()}
+        held = [(x, o.connection_uuid, self.ip_index.get(str(o.ip_address)), bool(o.is_active)) for x, o in self.held]
+        return {"nodes": nodes, "t": self.t, "blk": self.blocked(), "held": held}
 
     # -- operations
     def _req(self, i: int, path: list) -> str:
@@ -364,6 +390,36 @@ class Impl:
             return "success" if self.nodes[op["y"]].local_logout() else "failure"
         if k == "enable":
             return "success" if self.nodes[op["y"]].user_manager.enable_user(op["u"]) else "failure"
+        if k == "take":
+            if op["x"] >= len(self.nodes):
+                return "unreachable"
+            c = self.nodes[op["x"]]
+            objs = list(c.terminal._connections.values())
+            if op["i"] >= len(objs):
+                return "failure"
+            o = objs[op["i"]]
+            if o.connection_uuid in c.user_session_manager.remote_sessions:
+                return "failure"     # a server-side object / a node logged in to itself: not taken (see Model/SessionHandle.lean)
+            self.held.append((op["x"], o))
+            return "success"
+        if k in ("hexec", "hdisc"):
+            if op["k"] >= len(self.held):
+                return "unreachable"
+            x, o = self.held[op["k"]]
+            is_local = type(o).__name__ == "LocalTerminalConnection"
+            if k == "hdisc":
+                if is_local:
+                    return "unreachable"     # outside the operation set: nothing is done
+                return "success" if o.disconnect() else "failure"
+            if is_local:
+                r = o.execute(_resolve(self.cmd_request(x, op.get("cmd", FILE))))
+                return "failure" if r is None else r.status
+            y = self.ip_index.get(str(o.ip_address))
+            term = self.nodes[x].terminal
+            term._last_response = None          # what the handler of send_remote_command does before `execute`
+            o.execute(_resolve(self.cmd_request(y, op.get("cmd", FILE))))
+            r = term.last_response
+            return "failure" if r is None else r.status
         if k == "tick":
             self.t += 1
             self.sim.apply_timestep(self.t)
@@ -394,7 +450,37 @@ class Impl:
                     nd.software_manager.arp.clear()
             return "success"
         node = exec_node(op)
+        if self.cfg.get("via") == "action" and k in ACTION_OF:
+            # the request is built by the agent ACTION class (`ActionManager.form_request`: ConfigSchema(**options), then form_request),
+            # not by the rig's own table: the action layer is part of what the model is compared with
+            r = self.sim.apply_request(_resolve(self.action_request(node, op)))
+            return "none" if r is None else r.status
         return self._req(node, _resolve(self.cmd_request(node, op)))
+
+    def action_request(self, node: int, c: dict) -> list:
+        """what the agent action for command `c` on node `node` sends (full path)"""
+        import primaite.game.agent.actions  # noqa: F401  (registers the action classes)
+        from primaite.game.agent.actions.abstract import AbstractAction
+        k = c["op"]
+        name = f"n{node}"
+        if k == "rlogin":
+            opts = {"node_name": name, "username": c["u"], "password": c["p"], "remote_ip": self.ip(c["y"])}
+        elif k == "rlogoff":
+            opts = {"node_name": name, "remote_ip": self.ip(c["y"])}
+        elif k == "chpw":
+            opts = {"node_name": name, "username": c["u"], "current_password": c["old"], "new_password": c["new"]}
+        elif k == "adduser":
+            opts = {"node_name": name, "username": c["u"], "password": c["p"], "is_admin": c["admin"]}
+        elif k == "disable":
+            opts = {"node_name": name, "username": c["u"]}
+        elif k == "lcmd":
+            opts = {"node_name": name, "username": c["u"], "password": c["p"], "command": _resolve(self.cmd_request(node, c.get("cmd", FILE)))}
+        elif k == "rcmd":
+            opts = {"node_name": name, "remote_ip": self.ip(c["y"]), "command": _resolve(self.cmd_request(c["y"], c.get("cmd", FILE)))}
+        else:
+            raise ValueError(k)
+        cls = AbstractAction._registry[ACTION_OF[k]]
+        return cls.form_request(config=cls.ConfigSchema(**opts))
 
 
     def _arp_targets(self, j):
@@ -518,11 +604,28 @@ def walk(op: dict, before: dict):
     """Follow a (nested) request through the terminals on the state BEFORE the operation.
     Returns (hops_ok, node the innermost command is executed on, innermost command, nodes where an `lcmd` hop logs in)."""
     nodes = before["nodes"]
-    cur = exec_node(op)
-    c = op
-    ok = cur < len(nodes)
     local_logins = []
     TOUCHED.clear()
+    if op["op"] == "hexec":
+        # the first hop is the kept object: a remote one needs its id to be a live session of its target AND still a key of the
+        # holder's dictionary (not logged off / timed out); a local one needs its id to be the node's current local session
+        held = before.get("held", [])
+        c = op.get("cmd", FILE)
+        if op["k"] >= len(held):
+            return False, None, c, local_logins
+        x, cid, peer, _active = held[op["k"]]
+        if peer is None:
+            ok = nodes[x]["loc"] is not None and nodes[x]["loc"][0] == cid
+            cur = x
+        else:
+            ok = peer < len(nodes) and cid in [r[0] for r in nodes[peer]["rem"]] and any(q == cid for q, _ in nodes[x]["conns"])
+            if ok:
+                TOUCHED.append((peer, cid))
+            cur = peer
+    else:
+        cur = exec_node(op)
+        c = op
+        ok = cur < len(nodes)
     while ok and c["op"] in ("rcmd", "lcmd"):
         if c["op"] == "rcmd":
             y = c["y"]
@@ -595,6 +698,9 @@ def oracle(case: dict, snaps: List[dict], stats: List[str]) -> Optional[Tuple[di
                 return ({"kind": "ended-session-revived", "op": k}, f"op {i} {op_line(op)}: an ended session id is valid again", i)
             ever[j] |= {r[0] for r in b["rem"]} | ids_a
             dead[j] |= ever[j] - ids_a
+            if not a.get("ds_ok", True):
+                return ({"kind": "describe-state-disagrees-with-sessions", "op": k}, f"op {i} {op_line(op)}: describe_state() of node {j}'s "
+                        f"user-session-manager does not show its current local user / remote sessions", i)
             # limit, last admin
             if len(a["rem"]) > a["max"]:
                 return ({"kind": "limit-exceeded", "op": k}, f"op {i} {op_line(op)}: more than max_remote_sessions on node {j}", i)
@@ -664,6 +770,15 @@ def oracle(case: dict, snaps: List[dict], stats: List[str]) -> Optional[Tuple[di
             if (st == "success" and not changed) or (changed and st != "success" and not reply_blocked):
                 return ({"kind": "remote-command-answer-wrong", "op": k, "answer": st, "executed": changed},
                         f"op {i} {op_line(op)} answered {st} but the command was {'executed' if changed else 'not executed'}", i)
+        # a kept connection object: `success` only for an executed command; `is_active` is never set again
+        if k == "hexec" and op.get("cmd", FILE)["op"] == "file" and st == "success" and \
+                all(a["files"] == b["files"] for a, b in zip(after["nodes"], before["nodes"])):
+            return ({"kind": "handle-answer-wrong", "op": k}, f"op {i} {op_line(op)} answered success but no command was executed", i)
+        if k == "hdisc" and st == "success" and op["k"] < len(after.get("held", [])) and after["held"][op["k"]][3]:
+            return ({"kind": "handle-active-after-disconnect", "op": k}, f"op {i} {op_line(op)}: the object is still active after its own disconnect()", i)
+        for hb, ha in zip(before.get("held", []), after.get("held", [])):
+            if ha[3] and not hb[3]:
+                return ({"kind": "handle-reactivated", "op": k}, f"op {i} {op_line(op)}: is_active of a kept connection went back to True", i)
         # the answer of a login tells what happened: success => the client holds a connection whose id is a session of the target;
         # a session opened on the target although the client was told `failure` only if the answer could not travel back
         if k == "rlogin":
@@ -1246,6 +1361,51 @@ def medium_alphabet() -> List[dict]:
         {"op": "rlogoff", "x": 0, "y": 1},
         {"op": "tick"},
     ]
+
+
+HANDLE_PREFIX = [
+    {"op": "rlogin", "x": 0, "y": 1, "u": "admin", "p": "admin"},
+    {"op": "rlogin", "x": 0, "y": 1, "u": "admin", "p": "admin"},
+    {"op": "lcmd", "y": 0, "u": "admin", "p": "admin"},
+    {"op": "take", "x": 0, "i": 1},     # held[0]: the SECOND connection 0 -> 1 (requests can only use the first)
+    {"op": "take", "x": 0, "i": 2},     # held[1]: the local connection of node 0
+]
+
+
+def handle_alphabet() -> List[dict]:
+    """after HANDLE_PREFIX on the routed topology: commands on / logoff of the kept objects, and every way their sessions end"""
+    return [
+        {"op": "hexec", "k": 0},
+        {"op": "hexec", "k": 1},
+        {"op": "hdisc", "k": 0},
+        {"op": "tick"},
+        {"op": "chpw", "y": 1, "u": "admin", "old": "admin", "new": "pw1"},
+        {"op": "chpw", "y": 0, "u": "admin", "old": "admin", "new": "pw1"},
+        {"op": "rlogoff", "x": 0, "y": 1},
+        {"op": "rcmd", "x": 0, "y": 1},
+        {"op": "lcmd", "y": 0, "u": "admin", "p": "admin"},
+        {"op": "llogout", "y": 0},
+        {"op": "block", "x": 0, "y": 1, "on": True},
+        {"op": "block", "x": 0, "y": 1, "on": False},
+        {"op": "svc", "y": 1, "s": "user-session-manager", "v": "stop"},
+        {"op": "usmlogout", "y": 1, "i": 1},
+    ]
+
+
+def with_handles(rng: Rng, cfg: dict, ops: List[dict]) -> List[dict]:
+    """the operation list with operations on kept connection objects mixed in: after an operation, sometimes keep a reference to
+    one of the connection objects of some node (whatever is there: client-side, local, or — refused — server-side), and, once
+    something is kept, sometimes run a file command on a kept object or log it off"""
+    out, taken = [], 0
+    for o in ops:
+        out.append(o)
+        if rng.chance(1, 4):
+            out.append({"op": "take", "x": rng.below(cfg["n"]), "i": rng.below(3)})
+            taken += 1
+        if taken and rng.chance(1, 3):
+            k = rng.below(taken // 3 + 1 + (1 if rng.chance(1, 10) else 0))   # about one `take` in four finds an object to keep
+            out.append({"op": "hdisc", "k": k} if rng.chance(1, 4) else {"op": "hexec", "k": k})
+    return out
 
 
 def exhaustive_cases(cfg: dict, prefix: List[dict], depth: int, alpha: List[dict]):
